@@ -399,3 +399,113 @@ def fresh_defaults(tree, ob, rels):
                     ob.violate(rel, qual, '{}(... = {})'.format(func.name, src(d)[:40]), 'the default argument is one object made when the function was defined and shared by every call: objects that '
                                'should start empty (the bundle of a new container) accumulate what earlier uses put into them', d)
     ob.site(rels[0], tree.module(rels[0]).tree, 'no default argument builds a shared mutable object ({} defaults in {} module(s))'.format(n, len(rels)))
+
+
+
+def iter_mutation(tree, ob, rels, report=True):
+    ''' a list / dict / set that is being iterated is not changed in size by the loop body: removing from a list while
+    iterating skips the element behind each removed one, popping from a dict while iterating raises RuntimeError.  Loops
+    over a copy (list(x), tuple(x), x.copy(), x[:], sorted(x)) are fine, so is a mutation directly followed by break / return. '''
+    MUT = ('remove', 'pop', 'append', 'insert', 'clear', 'add', 'discard', 'popitem', 'extend', 'update', 'setdefault')
+    found = []
+    n = 0
+    for rel in rels:
+        for (r, qual, func) in tree.all_functions([rel]):
+            for loop in [x for x in walk_local(func) if isinstance(x, ast.For)]:
+                it = loop.iter
+                if isinstance(it, ast.Call) and isinstance(it.func, ast.Attribute) and it.func.attr in ('values', 'items', 'keys') and not it.args:
+                    it = it.func.value
+                if not isinstance(it, (ast.Name, ast.Attribute)):
+                    continue
+                base = src(it)
+                n += 1
+                for st in walk_local(loop):
+                    hit = None
+                    if isinstance(st, ast.Call) and isinstance(st.func, ast.Attribute) and st.func.attr in MUT and src(st.func.value) == base:
+                        hit = st
+                    if isinstance(st, ast.Delete) and any(isinstance(t, ast.Subscript) and src(t.value) == base for t in st.targets):
+                        hit = st
+                    if hit is None:
+                        continue
+                    # mutation then leaving the loop at once is the find-and-remove idiom
+                    from ..core import enclosing_stmt, parent
+                    hs = enclosing_stmt(hit)
+                    par = parent(hs)
+                    leaves = False
+                    for fld in ('body', 'orelse', 'finalbody'):
+                        blk = getattr(par, fld, None)
+                        if isinstance(blk, list) and hs in blk:
+                            rest = blk[blk.index(hs) + 1:]
+                            leaves = bool(rest) and isinstance(rest[0], (ast.Break, ast.Return)) or (not rest and isinstance(par, ast.If) and False)
+                            leaves = leaves or any(isinstance(x, (ast.Break, ast.Return)) for x in rest[:2])
+                    if leaves:
+                        continue
+                    found.append((rel, qual, loop, hit, base))
+    for (rel, qual, loop, hit, base) in found:
+        if report:
+            ob.violate(rel, qual, 'for {} in {}: ... {}'.format(src(loop.target), src(loop.iter), src(hit)[:40]), 'the container {} is changed in size while it is being iterated: a list skips the element '
+                       'behind every removed one, a dict raises RuntimeError out of the loop'.format(base), hit)
+    if not found:
+        ob.site(rels[0], tree.module(rels[0]).tree, 'no loop changes the size of the container it iterates ({} loops over named containers in {} module(s))'.format(n, len(rels)))
+    return found
+
+
+
+def tx_steps_discipline(tree, ob):
+    ''' the TX chain is run by send_bundle() for every bundle -- and again for every fragment, which re-enters through
+    send_bundle().  So (1) a step that edits the blocks of the bundle it is given (adds, removes or advances blocks) does
+    so only for bundles that are not fragments, else each fragment is edited again after it was cut to size; (2) a truthy
+    result means "this step took the transmission over" and stops send_bundle(): only the fragmentation step, which
+    really re-submits the pieces, may give one. '''
+    steps = [st for st in chain_steps(tree) if st['chain'] == 'tx']
+    ob.require(len(steps) >= 4, 'TX chain steps found: {}'.format(len(steps)))
+    for st in steps:
+        qual = '{}.{}'.format(st['cls'], st['action'])
+        if not tree.has_func(st['rel'], qual):
+            raise AnalysisError('TX step {} not found'.format(qual))
+        fv = FuncView(tree, st['rel'], qual)
+        params = [a.arg for a in fv.func.args.args]
+        ctr = params[1] if len(params) > 1 else 'ctr'
+        taker = (st['rel'], qual) == ('bp/app/fragment.py', 'Fragment._create')
+        # (2)
+        for r in [x for x in walk_local(fv.func) if isinstance(x, ast.Return) and x.value is not None]:
+            falsy = isinstance(r.value, ast.Constant) and not r.value.value
+            if falsy or taker:
+                continue
+            ob.violate(st['rel'], qual, src(r), 'a TX step other than fragmentation returns a value that can be truthy: send_bundle() takes it for "transmission taken over" and returns without sending, '
+                       'while the forwarder records the bundle as forwarded', r)
+        # (1)
+        if taker:
+            ob.site(st['rel'], fv.func, qual + ': the fragmentation step (may take the transmission over)')
+            continue
+        edits = [c for c in calls_in(fv.func) if isinstance(c.func, ast.Attribute) and c.func.attr in ('add_block', 'remove_block') and src(c.func.value) == ctr]
+        edits += [n for n in walk_local(fv.func) if isinstance(n, ast.AugAssign) and '.payload.' in src(n.target)]
+        bad = [e for e in edits if not any(t.endswith('PrimaryBlock.Flag.IS_FRAGMENT') and p_ is False for (t, p_) in (fv.facts(e) or ()))]
+        if bad:
+            ob.violate(st['rel'], qual, src(bad[0])[:70], 'a TX step edits the blocks of whatever passes the chain, fragments included: every fragment of a forwarded bundle is edited again after it was cut '
+                       '(blocks added twice, counts advanced twice) and comes out larger than the MTU it was cut for', bad[0])
+        else:
+            ob.site(st['rel'], fv.func, qual + ': edits no blocks of a fragment, gives no truthy result')
+
+
+
+def tx_queue_head_leaves_first(tree, ob, rel):
+    ''' the TX queue of a CL agent is worked one item per call.  The item leaves the queue before anything is done with it
+    (as in Agent._do_fwd of the BP agent, C10.f): whatever then fails costs that item only.  Left at the head until its
+    datagrams went out, an item that cannot be sent (oversize, unusable address) is retried for ever and blocks every
+    bundle behind it -- or is sent again from a file already read to its end, as an empty bundle. '''
+    fv = FuncView(tree, rel, 'Agent._process_tx_queue')
+    takes = [n for n in walk_local(fv.func) if isinstance(n, (ast.Assign, ast.AnnAssign)) and n.value is not None and pm('self._tx_queue.pop(0)', n.value) is not None]
+    peeks = [n for n in walk_local(fv.func) if isinstance(n, (ast.Assign, ast.AnnAssign)) and n.value is not None and pm('self._tx_queue[0]', n.value) is not None]
+    work = [c for c in calls_in(fv.func) if (isinstance(c.func, ast.Name) and c.func.id == 'sender') or (isinstance(c.func, ast.Attribute) and c.func.attr in ('_send_transfer', 'send_bundle_started', 'sendto', 'sendmsg'))]
+    ob.require(work, 'work on the head item in {} _process_tx_queue'.format(rel))
+    if peeks or not takes:
+        ob.violate(rel, fv.qual, src((peeks or [fv.func])[0])[:60], 'the item is worked on while it is still at the head of the TX queue: a send that fails leaves it there, it is retried on every call and nothing '
+                   'behind it is ever sent (or it goes out again as an empty bundle, its file having been read to the end)', (peeks or [fv.func])[0])
+        return
+    t = takes[0]
+    late = [w for w in work if not fv.dominates(t, w)[0]]
+    if late:
+        ob.violate(rel, fv.qual, src(late[0])[:60] + ' before self._tx_queue.pop(0)', 'work on the head item starts before it has left the TX queue', late[0])
+    else:
+        ob.site(rel, t, 'the item leaves the TX queue before it is worked on')
